@@ -99,6 +99,15 @@ func String(name string, n int) string { return string(Bytes(name, n)) }
 // hash functions are used and this is a no-op.
 func CollisionFree() {}
 
+// B2U converts a condition to 0/1 without a branch (the engine builds an ite term instead of
+// forking the path); used to write specifications that do not multiply paths.
+func B2U(b bool) uint64 {
+	if b {
+		return 1
+	}
+	return 0
+}
+
 // FeltBytes returns the 32-byte big-endian encoding of an arbitrary canonical field element (< P).
 func FeltBytes(name string) [32]byte {
 	var out [32]byte
